@@ -13,6 +13,7 @@ per (property, key): number of evaluations, worst error, tolerance, and the firs
     integrate  C19  Behavior.Integrate: arguments untouched, outputs finite where converged, p never decreases
     fearray    C12  FeArray @ / dot / ddot between two fields: the pointwise product at sampled (element, point) pairs
     timestep   C05  every solve under a time scheme: stored rates follow the documented scheme; equation of motion on free dofs (linear kinds)
+    location   C08  reference coordinates returned by the point location reproduce the query point through the element's own map
     phasefield C17  split parts finite and adding up to the undamaged stress / energy; history energy / damage monotone between saved steps
     history    C15  stored iterations keep the digest they were saved with; the entry just saved holds the live primary fields
 """
@@ -682,13 +683,65 @@ def install_phasefield(every=5, limit=60000):
     _ = o_mesh
 
 
+# ------------------------------------------------------------------------------------------
+def install_location(max_elems=60):
+    """Point location: the reference coordinates returned for a point, pushed through the element's own shape functions and
+    node coordinates, give back the point that was asked for."""
+    from EasyFEA.FEM._group_elem import _GroupElem
+
+    orig = _GroupElem._Get_Mapping
+    rng = np.random.default_rng(2)
+
+    @guarded("location")
+    def look(g, coordinates_n, out):
+        detectedNodes, detectedElements_e, connect_e_n, xi_n = out
+        if xi_n is None or g.dim != g.inDim or len(detectedElements_e) == 0:
+            return
+        X = np.asarray(g.coordGlob if hasattr(g, "coordGlob") else g.coord, float)
+        pts = np.asarray(coordinates_n, float)
+        Nt = g._N()
+        # a point on a shared face is detected in several elements; the reference coordinates kept for it are those of the
+        # element that detected it last (the elements are visited in the order of the returned list)
+        owner = {}
+        for kk in range(len(detectedElements_e)):
+            for i_ in np.asarray(connect_e_n[kk], int).tolist():
+                owner[i_] = kk
+        pick = np.arange(len(detectedElements_e))
+        if len(pick) > max_elems:
+            pick = rng.choice(pick, max_elems, replace=False)
+        worst = 0.0
+        npts = 0
+        for kk in pick:
+            e = int(detectedElements_e[kk])
+            idx = np.asarray([i_ for i_ in np.asarray(connect_e_n[kk], int).tolist() if owner[i_] == kk], int)
+            if idx.size == 0:
+                continue
+            Xe = X[g.connect[e]][:, : g.dim]
+            h = float(np.linalg.norm(Xe.max(0) - Xe.min(0))) + 1e-300
+            N = np.asarray(_GroupElem._Eval_Functions(Nt, np.asarray(xi_n[idx], float).reshape(len(idx), -1)), float)  # (n, 1, nPe)
+            xr = N[:, 0, :] @ Xe
+            worst = max(worst, float(np.abs(xr - pts[idx][:, : g.dim]).max()) / h)
+            npts += len(idx)
+        LOG.call("located-points", npts)
+        LOG.check("C08", "location-roundtrip", f"C08/suite/{g.elemType.value}/N(xi).X=x", worst, 1e-6, elements=int(len(pick)), points=npts)
+
+    def _Get_Mapping(self, coordinates_n, elements_e, needCoordinates=False, *a, **k):
+        out = orig(self, coordinates_n, elements_e, needCoordinates, *a, **k)
+        if not _inside[0] and needCoordinates:
+            LOG.call("mapping-calls")
+            look(self, coordinates_n, out)
+        return out
+
+    _GroupElem._Get_Mapping = _Get_Mapping
+
+
 INSTALLERS = {"law": install_law, "assembly": install_assembly, "bc": install_bc, "stale": install_stale, "integrate": install_integrate,
-              "fearray": install_fearray, "timestep": install_timestep, "history": install_history, "phasefield": install_phasefield}
+              "fearray": install_fearray, "timestep": install_timestep, "history": install_history, "phasefield": install_phasefield, "location": install_location}
 
 
 def install(names, out_path):
     # order matters: 'stale' counts assemblies through whatever wraps Assembly before it
-    for n in ["law", "assembly", "bc", "timestep", "integrate", "fearray", "phasefield", "history", "stale"]:
+    for n in ["law", "assembly", "bc", "timestep", "integrate", "fearray", "phasefield", "location", "history", "stale"]:
         if n in names:
             try:
                 INSTALLERS[n]()
